@@ -19,11 +19,13 @@ import numpy as np
 import xgi
 from xgi.exception import XGIError
 
-from ..core import TRUSTED_COMMON, VERIF, build_and_audit, dec_id, enc_id, finish, jhash, load_known
+from .. import core
+from ..core import OUT, TRUSTED_COMMON, VERIF, build_and_audit, dec_id, enc_id, finish, is_known, jhash, jsonable, load_known
 from ..fn import all_small_hypergraphs, approx_equal, gen_hypergraph, run_fn
 
 ORDERS = [None, 0, 1, 2, 3]
 TOL = 1e-9
+KNOWN_SUFFIX = "@weighted-nonunit"
 
 # ----------------------------------------------------------------------------- building the real network
 
@@ -198,10 +200,32 @@ def kwargs_of(c):
 _CTX = [None]
 
 
+WEIGHT_DEFAULT_MARK = 1000  # added to the callback's value when its third argument is not the hypergraph
+
+
+def weight_table(c):
+    """{(node json, edge json): value} of a `weight=` callback case"""
+    return {(json.dumps(n), json.dumps(e)): v for n, e, v in c["wt"]}
+
+
+def make_weight(c, H):
+    """the callback handed to incidence_matrix(weight=…): a NON-symmetric table lookup on (node, edge) with a default for
+    every other pair (so swapped arguments are visible); the third argument must be the hypergraph itself"""
+    tbl, dflt = weight_table(c), c["wdef"]
+
+    def weight(node, edge, Hh):
+        v = tbl.get((json.dumps(enc_id(node)), json.dumps(enc_id(edge))), dflt)
+        return v if Hh is H else v + WEIGHT_DEFAULT_MARK
+    return weight
+
+
 def impl(c):
     fn, has_sparse, n_index = FUNCS[c["f"]]
     H = build(c["net"], c.get("weights") if c["f"] == "normalized_hypergraph_laplacian" else None)
-    ref, problems = call_variants(_CTX[0], fn, H, kwargs_of(c), has_sparse, n_index)
+    kw = kwargs_of(c)
+    if "wt" in c:
+        kw["weight"] = make_weight(c, H)
+    ref, problems = call_variants(_CTX[0], fn, H, kw, has_sparse, n_index)
     ref = dict(ref)
     ref["problems"] = problems
     return ref
@@ -324,12 +348,22 @@ def pred(c, r, rng=None):
         if dicts[0] != nodes or dicts[1] != [e for e, _ in es]:
             fails.append(("incidence-index-maps", f"rowdict {dicts[0]} coldict {dicts[1]}; nodes {nodes}, edges {[e for e, _ in es]}"))
             return fails
+        tbl = weight_table(c) if "wt" in c else None
         for i, n in enumerate(dicts[0]):
             for j, e in enumerate(dicts[1]):
-                want = 1 if n in es[j][1] else 0
-                if mat[i][j] != want:
-                    fails.append(("incidence-entry", f"entry (node {n!r}, edge {e!r}) = {mat[i][j]}, member = {bool(want)}"))
-                    return fails
+                member = n in es[j][1]
+                if tbl is None:
+                    want = 1 if member else 0
+                    if mat[i][j] != want:
+                        fails.append(("incidence-entry", f"entry (node {n!r}, edge {e!r}) = {mat[i][j]}, member = {member}"))
+                        return fails
+                else:
+                    want = tbl.get((json.dumps(n), json.dumps(e)), c["wdef"]) if member else 0
+                    if mat[i][j] != want:
+                        fails.append(("incidence-weight-callback-entry",
+                                      f"entry (node {n!r}, edge {e!r}) = {mat[i][j]}, member = {member}, weight(node, edge, H) = "
+                                      f"{tbl.get((json.dumps(n), json.dumps(e)), c['wdef'])}"))
+                        return fails
         return fails
 
     if f in ("adjacency", "clique"):
@@ -459,15 +493,29 @@ def pred(c, r, rng=None):
             return fails
         check_symmetric("normalized", mat, fails)
         exp = bf_normalized(c)
+        # The known finding (known_findings/C12.json) has its OWN failure classes, emitted only for its witness pattern:
+        # weighted=True, some effective edge weight != 1, and the returned matrix is exactly the textbook formula with the
+        # UNWEIGHTED vertex degree in place of the weighted one.  Anything else (unit weights, weighted=False, or a matrix
+        # that is not that formula) keeps the generic classes, which are not listed and are therefore reported.
+        sfx = ""
+        if c["weighted"] and any(w != 1 for w in edge_weights(c)):
+            asis = bf_normalized(c, unweighted_degree=True)
+            if isinstance(asis, list) and all(abs(mat[i][k] - asis[i][k]) <= TOL * max(1.0, abs(asis[i][k]))
+                                              for i in range(N) for k in range(N)):
+                sfx = KNOWN_SUFFIX
+        note = " [matrix = textbook formula with the unweighted vertex degree; weights " + str(c["weights"]) + "]" if sfx else ""
         if not isinstance(exp, list):
-            fails.append(("normalized-not-textbook", f"returned a matrix where the textbook matrix is {exp}"))
+            # (a zero weighted degree: the textbook matrix is undefined, the code's unweighted degree is not)
+            fails.append(("normalized-not-textbook" + sfx, f"returned a matrix where the textbook matrix is {exp}" + note))
             return fails
         if N:
-            check_psd("normalized", mat, rng, fails)
+            sub = []
+            check_psd("normalized", mat, rng, sub)
+            fails += [(k + sfx, d + note) for k, d in sub]
         if not all(abs(mat[i][k] - exp[i][k]) <= TOL * max(1.0, abs(exp[i][k])) for i in range(N) for k in range(N)):
-            fails.append(("normalized-not-textbook",
-                          f"{[[round(v, 6) for v in r] for r in mat]} vs I - Dv^-1/2 H W De^-1 H^T Dv^-1/2 = "
-                          f"{[[round(v, 6) for v in r] for r in exp]}"[:500]))
+            fails.append(("normalized-not-textbook" + sfx,
+                          (f"{[[round(v, 6) for v in r] for r in mat]} vs I - Dv^-1/2 H W De^-1 H^T Dv^-1/2 = "
+                           f"{[[round(v, 6) for v in r] for r in exp]}"[:500]) + note))
         return fails
     return fails
 
@@ -487,16 +535,18 @@ def edge_weights(c):
     return [Fraction(1) if w is None else Fraction(w) for w in c["weights"]]
 
 
-def bf_normalized(c):
+def bf_normalized(c, unweighted_degree=False):
     """Zhou, Huang, Schölkopf (2006): I - Dv^{-1/2} H W De^{-1} H^T Dv^{-1/2} with d(v) = sum_e w(e) h(v,e),
-    delta(e) = |e|; returns the float matrix, or "err:lib" (isolated node / zero weighted degree), or "undefined" (empty edge)"""
+    delta(e) = |e|; returns the float matrix, or "err:lib" (isolated node / zero weighted degree), or "undefined" (empty edge).
+    unweighted_degree=True: the same formula with d(v) = number of edges containing v (used only to recognise the witness
+    pattern of the known finding)"""
     nodes, edges = members_of(c)
     if any(all(n not in ms for _, ms in edges) for n in nodes):
         return "err:lib"
     if any(len(ms) == 0 for _, ms in edges):
         return "undefined"
     w = edge_weights(c)
-    dv = [sum((wj for (_, ms), wj in zip(edges, w) if n in ms), Fraction(0)) for n in nodes]
+    dv = [sum(((Fraction(1) if unweighted_degree else wj) for (_, ms), wj in zip(edges, w) if n in ms), Fraction(0)) for n in nodes]
     if any(d <= 0 for d in dv):
         return "err:lib"
     out = []
@@ -569,23 +619,56 @@ def enc(nodes, edges):
     return {"nodes": [enc_id(n) for n in nodes], "edges": [[enc_id(e), [enc_id(x) for x in ms]] for e, ms in edges]}
 
 
+def weight_case(rng, net, order):
+    """incidence_matrix with a `weight=` callback: a table over all (node, edge) pairs (small ints incl. 0 and negatives,
+    the matrix has dtype=int) and a default, larger than every table value, for any other argument pair"""
+    wt = [[n, e, rng.choice([-3, -2, -1, 0, 2, 3, 4, 5, 6, 7, 8, 9])] for n in net["nodes"] for e, _ in net["edges"]]
+    return {"f": "incidence_matrix", "net": net, "order": order, "wt": wt, "wdef": rng.choice([97, 50, -40])}
+
+
+def max_shared(net):
+    ms = [set(map(json.dumps, m)) for _, m in net["edges"]]
+    best = 0
+    for a in net["nodes"]:
+        for b in net["nodes"]:
+            if a != b:
+                best = max(best, sum(1 for m in ms if json.dumps(a) in m and json.dumps(b) in m))
+    return best
+
+
 def grid(rng, net, full=True):
-    """every option combination of every function for one network (sparse/index are expanded inside impl)"""
+    """every option combination of every function for one network (sparse/index are expanded inside impl).  Orders above 3
+    and thresholds s above 3 are added where the network has such edges / that many shared edges (and now and then where
+    it has not)"""
     cases = []
-    for o in ORDERS:
+    big = sorted({len(ms) - 1 for _, ms in net["edges"] if len(ms) - 1 > 3})
+    if rng.random() < 0.06:
+        big = sorted(set(big) | {rng.choice([4, 5])})
+    svals = [1, 2, 3]
+    top = max_shared(net)
+    if top >= 4 or rng.random() < 0.06:
+        svals += sorted({4, min(max(top, 4), 7), rng.choice([5, 6])})
+    for o in ORDERS + big:
         cases.append({"f": "incidence_matrix", "net": net, "order": o})
         cases.append({"f": "degree_matrix", "net": net, "order": o})
         cases.append({"f": "intersection_profile", "net": net, "order": o})
-        for s in (1, 2, 3):
+        for s in svals:
             for w in (False, True):
                 cases.append({"f": "adjacency_matrix", "net": net, "order": o, "s": s, "weighted": w})
+    # the `weight=` callback of incidence_matrix: all orders together and one single order
+    cases.append(weight_case(rng, net, None))
+    cases.append(weight_case(rng, net, rng.choice([0, 1, 2, 3] + big)))
     cases.append({"f": "clique_motif_matrix", "net": net})
-    for d in (0, 1, 2, 3):
+    for d in [0, 1, 2, 3] + big:
         for resc in (False, True):
             cases.append({"f": "laplacian", "net": net, "order": d, "rescale": resc})
-        if len(net["nodes"]) ** (d + 1) <= 1300:
+        if len(net["nodes"]) ** (d + 1) <= (1300 if d <= 3 else 8000):
             for nm in (False, True):
                 cases.append({"f": "adjacency_tensor", "net": net, "order": d, "normalized": nm})
+    for ol in [[big[0]], [1, big[-1]], big[::-1] + [2]] if big else []:
+        for resc in (False, True):
+            ws = [rng.choice(WEIGHT_POOL + ["0"]) for _ in ol]
+            cases.append({"f": "multiorder_laplacian", "net": net, "orders": ol, "weights": ws, "rescale": resc})
     for ol in (ORDER_LISTS if full else rng.sample(ORDER_LISTS, 4)):
         for resc in (False, True):
             if resc and 0 in ol:
@@ -623,11 +706,27 @@ def special_networks():
            (["a", "b", "c", "d"], [(0, ["a"]), (1, ["a", "b"]), (2, ["a", "b"]), (3, ["a", "b", "c"])]),
            ([1, 2, 3], [(0, [1, 2]), (1, [])]), ([4, 2], [(0, []), (1, [])]),
            ([0, 1, 2, 3, 4], [(0, [0, 1, 2, 3]), (1, [1, 2, 3, 4]), (2, [0, 1, 2, 3])]),
-           ([3, 1, 2], [(2, [2, 1]), (1, [1, 3]), (0, [3, 2]), (9, [1, 2, 3])])]
+           ([3, 1, 2], [(2, [2, 1]), (1, [1, 3]), (0, [3, 2]), (9, [1, 2, 3])]),
+           # orders 4, 5, 6 (edges of 5, 6, 7 members) and a pair sharing 5 edges (thresholds s up to 5)
+           ([0, 1, 2, 3, 4, 5, 6], [(0, [0, 1, 2, 3, 4]), (1, [1, 2, 3, 4, 5, 6]), (2, [0, 1, 2, 3, 4, 5, 6]), (3, [2, 3, 4, 5, 6]),
+                                    (4, [0, 1]), (5, [6, 5, 4, 3, 2, 1])]),
+           (["a", "b", "c", "d", "e"], [(0, ["a", "b", "c", "d", "e"]), (1, ["a", "b", "c", "d"]), ("x", ["e", "d", "c", "b", "a"])]),
+           ([1, 2, 3], [(0, [1, 2]), (1, [1, 2]), (2, [2, 1]), (3, [1, 2, 3]), (4, [1, 2]), (5, [3])])]
     return [enc(n, e) for n, e in out]
 
 
 def random_network(rng):
+    r = rng.random()
+    if r < 0.05:
+        # edges of 5-7 members: orders 4-6
+        nodes, edges = gen_hypergraph(rng, max_nodes=7, max_edges=4, max_size=7)
+        if len(nodes) >= 5 and not any(len(ms) >= 5 for _, ms in edges):
+            edges.append(("big", rng.sample(nodes, rng.randint(5, len(nodes)))))
+        return enc(nodes, edges)
+    if r < 0.10:
+        # many edges on few nodes: pairs sharing 4 and more edges (thresholds s > 3)
+        nodes, edges = gen_hypergraph(rng, max_nodes=4, max_edges=12, max_size=3, edge_ids=lambda m: list(range(m)))
+        return enc(nodes, edges)
     r = rng.random()
     if r < 0.08:
         nodes, edges = gen_hypergraph(rng, max_nodes=6, max_edges=5, max_size=4, allow_empty_edges=True)
@@ -659,6 +758,12 @@ def fails_with(c, cls):
 def shrink(c, cls, budget=300):
     """greedy: drop edges, then members, then unused nodes while the predicate fails with the same class"""
     c = json.loads(json.dumps(c))
+    if c["f"] == "normalized_hypergraph_laplacian":
+        # prefer a witness with unit weights (outside the pattern of the known finding) when one exists
+        for cand in ({**c, "weighted": False, "weights": [None] * len(c["weights"])}, {**c, "weights": [None] * len(c["weights"])}):
+            if fails_with(cand, cls):
+                c = json.loads(json.dumps(cand))
+                break
     changed = True
     while changed and budget > 0:
         changed = False
@@ -729,10 +834,10 @@ def conclude12(ctx, ok, dis):
     """verdict logic of DESIGN 4.3; known findings do not count as the explanation of a broken obligation or of a
     disagreement: for every function on which model and implementation differ (or for all, if the build/audit broke)
     without a concrete violation that is not a known finding, search harder, then report `unproven`"""
-    known = {(k["site"], k["failure_class"]) for k in load_known() if k["property"] == ctx.prop}
+    known = [k for k in load_known() if k["property"] == ctx.prop]
 
     def explained(site=None):
-        return any(v["kind"] == "concrete" and (v["site"], v["failure_class"]) not in known and (site is None or v["site"] == site)
+        return any(v["kind"] == "concrete" and not is_known(ctx, v, known) and (site is None or v["site"] == site)
                    for v in ctx.violations)
 
     sites = sorted({str(c.get("f")) for c, _, _ in dis})
@@ -757,16 +862,31 @@ def conclude12(ctx, ok, dis):
 
 
 def replay(ctx, path):
+    """one case through the same path as a run (build + audit, predicate, correspondence, known findings, verdict).  The
+    record of a replay goes to out/replay-evidence/C12.json: evidence/C12.json always describes a full run."""
     j = json.load(open(path))
     c = j["case"] if "case" in j else j
+    if not (isinstance(c, dict) and c.get("f") in FUNCS):
+        raise core.Infra(f"{path}: not a C12 case (no replayable input: a `no-failing-input-found` record names broken obligations only)")
     _CTX[0] = ctx
     ok = build_and_audit(ctx, "XgiModel.Props.C12", ["XgiModel.C12.Drive"])
     dis = run_fn(ctx, "C12", [c], impl, pred=pred, compare=compare, nontrivial=nontrivial)
-    known = {(k["site"], k["failure_class"]) for k in load_known() if k["property"] == ctx.prop}
-    if (dis or not ok) and not any((v["site"], v["failure_class"]) not in known for v in ctx.violations):
+    known = [k for k in load_known() if k["property"] == ctx.prop]
+    if (dis or not ok) and not any(not is_known(ctx, v, known) for v in ctx.violations):
         ctx.violation("model-tie", "unproven", {"broken": ctx.broken, "example": ctx.extra.get("disagreements", [])[:1]},
                       detail="; ".join(ctx.broken)[:500], kind="unproven", broken=ctx.broken)
-    return finish(ctx, trusted_base=TRUSTED)
+    ctx.rule = f"replay of {path}"
+
+    def write_replay_evidence(prop, ev):
+        d = os.path.join(OUT, "replay-evidence")
+        os.makedirs(d, exist_ok=True)
+        with open(os.path.join(d, prop + ".json"), "w") as f:
+            json.dump(jsonable(ev), f, indent=1)
+    saved, core.write_evidence = core.write_evidence, write_replay_evidence
+    try:
+        return finish(ctx, trusted_base=TRUSTED)
+    finally:
+        core.write_evidence = saved
 
 
 TRUSTED = TRUSTED_COMMON + [
@@ -780,15 +900,20 @@ def run(ctx):
     _CTX[0] = ctx
     ok = build_and_audit(ctx, "XgiModel.Props.C12", ["XgiModel.C12.Drive"])
     rng = ctx.rng
-    ctx.rule = ("networks: hand-picked degenerate shapes + gen_hypergraph (1-6 nodes, 0-8 edges of size 0-4; int/str/mixed/negative "
-                "labels in shuffled order, explicit edge ids, multi-edges, singletons, isolated nodes, empty edges, uniform) ; for each "
-                "network the full option grid: order in {None,0,1,2,3}, s in {1,2,3}, weighted, rescale_per_node, 12 order lists with "
-                "random rational weights (also wrong lengths, negative), edge weights for the normalised Laplacian, tensor orders 0-3; "
-                "every case is run for every (sparse, index) combination.  evaluations = calls of the public functions; non-trivial = "
-                "distinct (case, result) whose network has an edge with >= 2 members and whose call returned a matrix")
+    ctx.rule = ("corpus/C12 first; networks: hand-picked degenerate shapes (incl. edges of 5-7 members and a pair sharing 5 edges) + "
+                "gen_hypergraph (1-7 nodes, 0-12 edges of size 0-7; int/str/mixed/negative labels in shuffled order, explicit edge "
+                "ids, multi-edges, singletons, isolated nodes, empty edges, uniform); for each network the full option grid: order in "
+                "{None,0,1,2,3} plus every order > 3 present (and now and then an absent one), s in {1,2,3} plus {4..7} where a pair "
+                "shares >= 4 edges, weighted, rescale_per_node, 12 order lists with random rational weights (also wrong lengths, "
+                "negative), two `weight=` callbacks of incidence_matrix (non-symmetric integer tables over (node, edge) with a "
+                "default for other argument pairs; third argument must be H), edge weights for the normalised Laplacian (unit, "
+                "non-unit, absent, 0), tensor orders 0-4; every case is run for every (sparse, index) combination; then "
+                "call/edit/call sequences for stale state.  evaluations = calls of the public functions; non-trivial = distinct "
+                "(case, result) whose network has an edge with >= 2 members and whose call returned a matrix; `opt:*` entries of "
+                "`distribution` count the option values reached")
     cases = corpus_cases()
     ctx.stats["corpus_cases"] = len(cases)
-    nets = special_networks() + [random_network(rng) for _ in range(ctx.n(90, 2500))]
+    nets = special_networks() + [random_network(rng) for _ in range(ctx.n(120, 1900))]
     for net in nets:
         cases += grid(rng, net, full=True)
     ctx.stats["networks_random_and_special"] = len(nets)
@@ -800,6 +925,17 @@ def run(ctx):
         ctx.exhaustive = True
         ctx.extra["exhaustive_space"] = (f"correspondence and predicate over all {n_ex} hypergraphs on 4 nodes with <= 3 distinct edges "
                                          "x the full option grid x (sparse, index)")
+    for c in cases:  # option histogram (what the grid actually reached)
+        if c.get("s", 0) > 3:
+            ctx.stats["opt:s>3"] += 1
+        if isinstance(c.get("order"), int) and c["order"] > 3 or any(d > 3 for d in c.get("orders", [])):
+            ctx.stats["opt:order>3"] += 1
+        if "wt" in c:
+            ctx.stats["opt:weight-callback"] += 1
+        if c["f"] == "normalized_hypergraph_laplacian":
+            ctx.stats["opt:normalized weighted=%s%s" % (c["weighted"], " nonunit" if c["weighted"] and any(w not in (None, "1") for w in c["weights"]) else "")] += 1
+            if "0" in c["weights"]:
+                ctx.stats["opt:normalized weight 0"] += 1
     dis = []
     for i in range(0, len(cases), 20000):
         dis += run_fn(ctx, "C12", cases[i:i + 20000], impl, pred=pred, compare=compare, nontrivial=nontrivial)
@@ -830,14 +966,17 @@ def run(ctx):
     shrink_violations(ctx)
     ctx.assumptions = [
         "labels int/str (bool/float IDs outside the model); networks satisfy Net.WF (what the views of a consistent Hypergraph show, C01)",
-        "s >= 1; order None or >= 0; laplacian/multiorder orders are ints; the default `weight` callback of incidence_matrix",
+        "s >= 1; order None or >= 0; laplacian/multiorder orders are ints; `weight=` callbacks of incidence_matrix are integer-valued "
+        "functions of (node, edge) (the matrix has dtype=int; float callbacks are truncated by numpy: outside the model)",
         "rescale_per_node with order 0 divides by zero: the model answers `undefined` and the implementation's NaN matrix (dense) / "
         "ZeroDivisionError (sparse) are both read as `undefined`; multiorder order lists containing 0 are generated only without rescaling",
         "normalised Laplacian: the model describes the code as it is (unweighted vertex degree also for weighted=True); the predicate "
         "checks the textbook matrix with weighted vertex degrees and PSD for every generated weight list, which the unchanged code "
-        "violates for weights != 1 (known finding); sqrt is taken by the harness (entry-wise delta_ik - M_ik / sqrt(Dv_i Dv_k) from "
-        "the model's rational M and Dv); networks with an empty edge are not generated for this function (delta(e) = 0: NaN dense, "
-        "finite sparse)",
+        "violates for weights != 1.  That known finding has its own failure classes (`…@weighted-nonunit`), emitted only when "
+        "weighted=True, some weight != 1 and the returned matrix equals the textbook formula with the unweighted degree; any other "
+        "failure at this site keeps the generic classes and is reported.  sqrt is taken by the harness (entry-wise delta_ik - M_ik / "
+        "sqrt(Dv_i Dv_k) from the model's rational M and Dv); networks with an empty edge are not generated for this function "
+        "(delta(e) = 0: NaN dense, finite sparse)",
         "sparse == dense is a fact about scipy exhibited by the runs only",
     ]
     return finish(ctx, trusted_base=TRUSTED)
